@@ -34,6 +34,7 @@ type Spec struct {
 
 type NamedInt int32
 type NamedString string
+type NamedBool bool
 
 var ErrUnsupported = errors.New("unsupported value")
 
@@ -42,7 +43,7 @@ var scalarTypes = map[string]reflect.Type{
 	"int": reflect.TypeOf(int(0)), "int8": reflect.TypeOf(int8(0)), "int16": reflect.TypeOf(int16(0)), "int32": reflect.TypeOf(int32(0)), "int64": reflect.TypeOf(int64(0)),
 	"uint": reflect.TypeOf(uint(0)), "uint8": reflect.TypeOf(uint8(0)), "uint16": reflect.TypeOf(uint16(0)), "uint32": reflect.TypeOf(uint32(0)), "uint64": reflect.TypeOf(uint64(0)),
 	"float32": reflect.TypeOf(float32(0)), "float64": reflect.TypeOf(float64(0)),
-	"named-int32": reflect.TypeOf(NamedInt(0)), "named-string": reflect.TypeOf(NamedString("")),
+	"named-int32": reflect.TypeOf(NamedInt(0)), "named-string": reflect.TypeOf(NamedString("")), "named-bool": reflect.TypeOf(NamedBool(false)),
 	"time": reflect.TypeOf(time.Time{}), "uintptr": reflect.TypeOf(uintptr(0)), "complex": reflect.TypeOf(complex128(0)),
 }
 
@@ -63,6 +64,8 @@ func build(s *Spec) reflect.Value {
 		return reflect.Value{}
 	case "bool":
 		return reflect.ValueOf(s.B)
+	case "named-bool":
+		return reflect.ValueOf(NamedBool(s.B))
 	case "string":
 		return reflect.ValueOf(s.S)
 	case "named-string":
@@ -180,7 +183,7 @@ func Expect(s *Spec) (interface{}, error) {
 	switch s.K {
 	case "nil", "nilptr":
 		return nil, nil
-	case "bool":
+	case "bool", "named-bool":
 		return s.B, nil
 	case "string", "named-string":
 		return s.S, nil
